@@ -27,10 +27,11 @@ RULE = {
 REQUIRED = {
     "C05": {"iteration:teleop": 500, "iteration:auto": 500, "iteration:disabled": 500, "iteration:test": 300,
             "timing-checked": 2000, "overrun-catchup": 30, "mode-string-checked": 2000, "teleop-in-auto-iteration": 100,
-            "inherited-robot-class": 50, "fault-in-iteration-body-swallowed": 20, "statemachine-component": 100},
+            "inherited-robot-class": 50, "fault-in-iteration-body-swallowed": 20, "statemachine-component": 100,
+            "robot-without-some-mode-hooks": 100},
     "C06": {"transition:teleop->auto": 20, "transition:auto->teleop": 20, "transition:teleop->disabled": 30,
             "transition:disabled->teleop": 30, "transition:auto->test": 10, "setup-checked": 300, "lifecycle-fault-swallowed": 30, "statemachine-component": 100, "end:teleop": 10, "end:auto": 10,
-            "end:disabled": 10, "end:test": 10},
+            "end:disabled": 10, "end:test": 10, "robot-without-some-mode-hooks": 100},
     "C07": {"swallowed:execute": 20, "swallowed:on_enable": 10, "swallowed:on_disable": 10, "swallowed:robotPeriodic": 10,
             "swallowed:teleopPeriodic-in-auto": 5, "swallowed:feedback": 10, "swallowed:mode.on_iteration": 5,
             "swallowed:init": 10, "swallowed:periodic": 10, "propagated": 100, "iterations-after-fault": 500,
@@ -145,6 +146,10 @@ def gen_case(rng, pid, uid):
     spec = {"uid": uid, "pid": pid, "period_us": period, "teleop_in_auto": rng.random() < 0.5, "fms": False,
             "robot_classes": robot_classes, "components": comps, "robot_feedbacks": robot_fbs, "modes": modes,
             "history": hist, "disabled_flags": dflags, "super_robot_periodic": rng.random() < 0.3, "plan": {}}
+    if rng.random() < 0.25:
+        # a robot that does not override every mode hook: MagicRobot's own (empty / nagging) default runs instead
+        hk = ["disabledInit", "disabledPeriodic", "teleopInit", "teleopPeriodic", "autonomousInit", "testInit", "testPeriodic"]
+        spec["omit_hooks"] = sorted(rng.sample(hk, rng.choice([1, 2, 3, 7])))
     sites = all_sites(spec)
     plan = spec["plan"]
 
@@ -254,6 +259,7 @@ def all_sites(spec):
     comps = spec["components"]
     hooks = ["R.disabledInit", "R.disabledPeriodic", "R.teleopInit", "R.teleopPeriodic", "R.autonomousInit", "R.testInit",
              "R.testPeriodic", "R.robotPeriodic"]
+    hooks = [h for h in hooks if h[2:] not in spec.get("omit_hooks", ())]
     s = list(hooks)
     for cn in order:
         s.append(f"{cn}.execute")
@@ -311,6 +317,7 @@ def expected_chunks(spec):
 
     chunks = []
     meta = []
+    om = {f"R.{h}" for h in spec.get("omit_hooks", ())}
     startup = [("set", [f"{comps[c].get('same_class_as', c)}.ctor" for c in order], "C06"), ("set", [f"{c}.setup" for c in order if comps[c]["has_setup"]], "C06")]
     prev = None
     for si, (m, dwell) in enumerate(spec["history"]):
@@ -323,6 +330,8 @@ def expected_chunks(spec):
                     slots += leave(prev)
                 slots += enter(m)
             slots += iteration(m)
+            if om:
+                slots = [(k_, [x for x in st_ if x not in om], o_) for k_, st_, o_ in slots]
             chunks.append([s for s in slots if s[1]])
             meta.append({"mode": m, "seg": si, "k": k, "prev": prev if k == 0 else m})
         prev = m
@@ -883,6 +892,8 @@ def run_case(spec, acc):
         V.ev("inherited-robot-class")
     if any(c.get("is_sm") for c in spec["components"].values()):
         V.ev("statemachine-component")
+    if spec.get("omit_hooks"):
+        V.ev("robot-without-some-mode-hooks")
     return run, V
 
 
